@@ -81,7 +81,9 @@ func (c *tinyLFU[K, V]) Access(item *cacheItem[K, V]) {
 // frequency of the item.
 func (c *tinyLFU[K, V]) Admit(item *cacheItem[K, V]) {
 	if c.bypassed() {
-		c.slru.Admit(item)
+		// no admission window: the item goes straight to the main segment, which must be
+		// recorded in keys like any other placement so Access/Remove can find its list
+		c.admitTo(item, &c.slru)
 		return
 	}
 
